@@ -1741,7 +1741,28 @@ class Translator:
             return out
         if k == 'CXXForRangeStmt':
             return self.range_for(n, fctx, ind)
-        if k in ('SwitchStmt', 'CaseStmt', 'DefaultStmt', 'GotoStmt', 'LabelStmt', 'CXXTryStmt'):
+        if k == 'SwitchStmt':
+            # switch (integral expression) { case K: ... break; default: ... }  -> the identical C construct
+            inner = list(n.get('inner', []) or [])
+            if n.get('hasInit') or n.get('hasVar') or len(inner) != 2: fail('switch with init statement / condition variable', n)
+            def _has_continue(x):
+                if x.get('kind') == 'ContinueStmt': return True
+                if x.get('kind') in ('ForStmt', 'WhileStmt', 'DoStmt', 'CXXForRangeStmt', 'LambdaExpr'): return False
+                return any(_has_continue(c) for c in x.get('inner', []) or [])
+            if _has_continue(inner[1]): fail('continue inside switch', n)
+            c = self.ex(inner[0], fctx)
+            fctx.dscopes.append(['LOOP'])      # `break` leaves the switch: destroys only the locals declared inside it
+            bl = self.block(inner[1], fctx, ind)
+            fctx.dscopes.pop()
+            return L + [pad + 'switch (%s)' % c] + bl
+        if k == 'CaseStmt':
+            inner = list(n.get('inner', []) or [])
+            if len(inner) != 2: fail('case range', n)
+            return L + [pad + 'case %s:' % self.ex(inner[0], fctx), pad + '{'] + self.stmt(inner[1], fctx, ind + 1) + [pad + '}']
+        if k == 'DefaultStmt':
+            inner = list(n.get('inner', []) or [])
+            return L + [pad + 'default:', pad + '{'] + self.stmt(inner[0], fctx, ind + 1) + [pad + '}']
+        if k in ('GotoStmt', 'LabelStmt', 'CXXTryStmt'):
             fail('unsupported statement', n)
         # expression statement
         return L + [pad + self.ex(n, fctx) + ';']
